@@ -24,6 +24,7 @@ import SigModel.Model.Alert
 import SigModel.Lemmas.C20
 import SigModel.Model.KV
 import SigModel.Lemmas.C20Kb
+import SigModel.Lemmas.C20Kc
 
 namespace SigModel.Props.C20
 open SigModel.Alert
@@ -369,5 +370,164 @@ example : -- non-vacuous run of the alias model: the two defects are visible in 
     [.res .ok, .res .ok, .target [[105], [106]], .res .ok, .res .ok, .amap [([97], [])], .res .ok, .restarted,
       .target [], .names [[98]]] := by decide
 end Alias
+
+/-! ## lookup files (pkg/lookups) — one name space (the code has NO tenant dimension, so there is no
+tenant_frame statement), no in-memory state; statements (1) and (2) hold at full strength -/
+section Lookup
+open SigModel.KV.Lookup
+
+/-- C20.K1 (lookup files): for EVERY sequence of upload (with / without overwrite, plain or gzip) / get /
+delete / list / restart, every answer is the documented one (upload stores under the normalised name —
+".csv" / ".csv.gz" appended unless already there, case-insensitively —, without overwrite it is a
+`create` = 409 when the name exists, with overwrite an upsert; get / delete = not-found exactly when
+absent; list = exactly the stored names) and `abs` commutes with every step. -/
+theorem kv_refines_spec_lookup (ops : List Op) : Refines Spec.empty init ops := by
+  have h := Lemmas.C20K.Lookup.refines_of_nodup ops init (by simp [init, AL.keys])
+  rwa [Lemmas.C20K.Lookup.abs_init] at h
+
+/-- C20.K2 (lookup files): a restart is the identity on the whole state (nothing is held in memory). -/
+theorem reload_persist_id_lookup (st : St) : (step st .restart).1 = st := rfl
+
+example : -- non-vacuous: suffix rule, conflict without overwrite, case variants are different files
+    (run init [.upload [97] "01" false false, .upload [97, 46, 99, 115, 118] "02" false false, .upload [97] "03" true false,
+      .get [97], .get [97, 46, 99, 115, 118], .upload [65, 46, 67, 83, 86] "04" false true, .list, .delete [97, 46, 99, 115, 118],
+      .restart, .list, .upload [46, 46] "05" true false]).2 =
+    [.stored [97, 46, 99, 115, 118], .res .exists_, .stored [97, 46, 99, 115, 118], .res .notFound, .content "03",
+      .stored [65, 46, 67, 83, 86], .names [[97, 46, 99, 115, 118], [65, 46, 67, 83, 86]], .res .ok, .restarted,
+      .names [[65, 46, 67, 83, 86]], .res .invalid] := by decide
+end Lookup
+
+/-! ## contact points (pkg/alerts/alertsqlite) — the sqlite table refines the keyed store only under a
+guard; four counterexamples -/
+section Contact
+open SigModel.KV.Contact
+
+/-- the guard: names of create / update are unused by every other contact of ANY org; an update with an
+empty Slack list meets an empty stored list; update / delete address the caller's own contact or none -/
+abbrev ContactClean (ops : List Op) : Prop := Clean init ops = true
+
+/-- C20.K1 (contact points), partial: under the guard every answer is the documented one (create
+stores under a fresh id, update / delete = not-found exactly when the caller's org has no such contact,
+list = exactly the org's contacts with their last written name, pager and Slack list) and `abs` commutes
+with every step. -/
+theorem kv_refines_spec_contact_partial (ops : List Op) (hc : ContactClean ops) : Refines Spec.empty init ops := by
+  have h := Lemmas.C20K.Contact.refines_of_inv ops init Lemmas.C20K.Contact.inv_init hc
+  rwa [Lemmas.C20K.Contact.abs_init] at h
+
+example : -- the guard is satisfiable: two orgs, updates with and without Slack channels, delete, restart
+    ContactClean [.create 0 [97] "p" ["c1"], .create 1 [98] "" [], .update 1 2 [99] "q" [], .update 0 1 [97] "r" ["c2", "c3"],
+      .list 0, .restart, .delete 1 2, .delete 1 2, .update 0 7 [100] "" [], .list 1] := by decide
+
+/-- C20.K1 (contact points) at full strength is REFUTED (1): a create whose name exists — in whatever
+org — is acknowledged and stores nothing (`CreateContact` returns nil when `First` finds the name). -/
+theorem kv_refines_spec_contact_counterexample_create : ¬ (∀ ops, Refines Spec.empty init ops) := by
+  intro h
+  have h1 := h [.create 0 [97] "p" [], .create 1 [97] "q" []]
+  simp only [Refines] at h1
+  obtain ⟨_, _, h2, _⟩ := h1
+  revert h2; simp only [OutOk]; decide
+
+/-- REFUTED (2): an update with an EMPTY Slack list leaves the old channels attached (the association is
+cleared only `if len(contact.Slack) != 0`). -/
+theorem kv_refines_spec_contact_counterexample_update_keeps : ¬ (∀ ops, Refines Spec.empty init ops) := by
+  intro h
+  have h1 := h [.create 0 [97] "p" ["c1"], .update 0 1 [97] "p" []]
+  simp only [Refines] at h1
+  obtain ⟨_, _, _, h2, _⟩ := h1
+  have h3 := congrFun (congrFun h2 0) 1
+  revert h3; simp only [specStep, Spec.update, Spec.set]; decide
+
+/-- REFUTED (3): a refused update (the new name belongs to another contact) still clears the Slack
+channels (the clear runs before, and outside the transaction of, the failing Save). -/
+theorem kv_refines_spec_contact_counterexample_failed_update : ¬ (∀ ops, Refines Spec.empty init ops) := by
+  intro h
+  have h1 := h [.create 0 [97] "p" ["c1"], .create 0 [98] "q" ["c2"], .update 0 2 [97] "r" ["c3"]]
+  simp only [Refines] at h1
+  obtain ⟨_, _, _, _, h2, _⟩ := h1
+  revert h2; simp only [OutOk]; decide
+
+/-- C20.K3 (contact points) is REFUTED: an update by org 1 of org 0's contact is accepted and MOVES the
+contact out of what org 0 reads (no org check; the saved row carries the caller's org id). -/
+theorem tenant_frame_contact_counterexample :
+    ¬ (∀ (st : St) (t id : Nat) (name : Key) (pager : String) (slack : List String) (t' id' : Nat),
+        t' ≠ t → abs (step st (.update t id name pager slack)).1 t' id' = abs st t' id') := by
+  intro h
+  have h1 := h (step init (.create 0 [97] "p" [])).1 1 1 [98] "q" [] 0 1 (by decide)
+  revert h1; decide
+
+/-- C20.K3 (contact points), partial: under the guard an operation of org `t` leaves what every other
+org reads unchanged. -/
+theorem tenant_frame_contact_partial (ops : List Op) (op : Op) (hc : ContactClean (ops ++ [op]))
+    (t : Nat) (ht : op.tenant = some t) (t' : Nat) (hne : t' ≠ t) (id : Nat) :
+    abs (step (run init ops).1 op).1 t' id = abs (run init ops).1 t' id := by
+  have hsplit : ∀ (ops : List Op) (st : St), Lemmas.C20K.Contact.Inv st → Clean st (ops ++ [op]) = true →
+      Lemmas.C20K.Contact.Inv (run st ops).1 ∧ stepClean (run st ops).1 op = true := by
+    intro ops
+    induction ops with
+    | nil => intro st hi h; exact ⟨hi, by simpa [Clean, run] using h⟩
+    | cons o r ih =>
+      intro st hi h
+      simp only [List.cons_append, Clean, Bool.and_eq_true] at h
+      have := ih _ (Lemmas.C20K.Contact.step_ok hi o h.1).1 h.2
+      simpa [run] using this
+  obtain ⟨hi, hcl⟩ := hsplit ops init Lemmas.C20K.Contact.inv_init hc
+  have h2 := (Lemmas.C20K.Contact.step_ok hi op hcl).2.1
+  rw [h2]
+  cases op with
+  | create t0 name pager slack =>
+    simp only [Op.tenant, Option.some.injEq] at ht; subst ht
+    simp [specStep, Spec.set, hne]
+  | update t0 id0 name pager slack =>
+    simp only [Op.tenant, Option.some.injEq] at ht; subst ht
+    simp only [specStep, Spec.update]; split <;> simp [Spec.set, hne]
+  | delete t0 id0 =>
+    simp only [Op.tenant, Option.some.injEq] at ht; subst ht
+    simp only [specStep, Spec.delete]; split <;> simp [Spec.set, hne]
+  | list t0 => rfl
+  | restart => rfl
+
+/-- C20.K2 (contact points): reopening the database is the identity on the whole (persistent) state. -/
+theorem reload_persist_id_contact (st : St) : (step st .restart).1 = st := rfl
+end Contact
+
+/-! ## dashboards and folders (pkg/dashboards) — modelled for the correspondence; proved here: restart
+identity, the tenant frame of the folder structures, and the counterexamples for the shared details files
+and the missing type / cycle checks.  The refinement of the tree operations is NOT proved. -/
+section Dash
+open SigModel.KV.Dash
+
+/-- C20.K2 (dashboards): nothing is held in memory — a restart is the identity on the whole state. -/
+theorem reload_persist_id_dash (st : St) : (step st .restart).1 = st := rfl
+
+/-- C20.K3 (dashboards), the folder structures: an operation of tenant `t` leaves the folder structure
+(items and order) of every other tenant untouched, in ANY state. -/
+theorem tenant_frame_dash_structure (st : St) (op : Op) (t : Nat) (ht : op.tenant = some t) (t' : Nat) (hne : t' ≠ t) :
+    (step st op).1.fs t' = st.fs t' :=
+  Lemmas.C20K.Dash.fs_frame st op t ht t' hne
+
+/-- C20.K3 (dashboards) is REFUTED for the details files, which are addressed by id alone: tenant 0
+toggling the favourite flag of tenant 1's dashboard changes what tenant 1 reads. -/
+theorem tenant_frame_dash_counterexample :
+    ¬ (∀ (st : St) (op : Op) (t : Nat), op.tenant = some t → ∀ t', t' ≠ t → ∀ id,
+        (step (step st op).1 (.getDash t' id)).2 = (step st (.getDash t' id)).2) := by
+  intro h
+  have h1 := h (step init (.createDash 1 [97] "p" 0)).1 (.favorite 0 1) 0 rfl 1 (by decide) 1
+  revert h1; decide
+
+/-- the missing type and cycle checks of `updateDashboard`: a sequence of two accepted API calls leaves a
+parent cycle in the folder structure (on which `buildFolderPath` / `generateBreadcrumbs` never return). -/
+theorem dash_update_creates_cycle_counterexample :
+    ¬ (∀ ops t, hasCycle ((run init ops).1.fs t) = false) := by
+  intro h
+  have h1 := h [.createFolder 1 [97] 0, .updateDash 1 1 [97] "p" (some 1)] 1
+  revert h1; decide
+
+example : -- non-vacuous run: folder rename refreshes the stored folder path on the next read; recursive delete
+    (run init [.createFolder 0 [97] 0, .createDash 0 [100] "p" 1, .updateFolder 0 1 (some [122]) none, .getDash 0 2,
+      .deleteFolder 0 1, .getDash 0 2, .list 0]).2 =
+    [.created 1, .created 2, .res .ok,
+      .dash { name := [100], payload := "p", fid := 1, fname := [122], path := [122], crumbs := [0, 1], fav := false },
+      .res .ok, .res .notFound, .rows []] := by decide
+end Dash
 
 end SigModel.Props.C20.KV
